@@ -3,7 +3,12 @@
 //! This module provides different algorithms for dynamically adjusting
 //! concurrency limits based on observed latency and error rates.
 
+#[cfg(not(feature = "verif-hooks"))]
 use std::sync::atomic::{AtomicU64, AtomicUsize, Ordering};
+#[cfg(feature = "verif-hooks")]
+use std::sync::atomic::Ordering;
+#[cfg(feature = "verif-hooks")]
+use tower_resilience_core::verif::atomic::{AtomicU64, AtomicUsize};
 use std::time::Duration;
 use tower_resilience_core::aimd::{AimdConfig, AimdController};
 
